@@ -178,7 +178,9 @@ Definition range_panic (sb eb : bound) : panic :=
   if bound_overflows true sb || bound_overflows false eb then POverflow else PRange.
 
 (** the iterator's calls: [(true, k)] = next(), [(false, k)] = next_back(); the yielded value is
-    dropped ([KDrop]) or downcast and then dropped ([KDown]).  Cursor [i, j).  Result: the report of
+    dropped ([KDrop]) or downcast and then dropped ([KDown]); [KSkip]: an item passed over by nth / nth_back /
+    skip / step_by - destroyed like a dropped one, never seen by the caller (no report): nth(n) is n such
+    calls followed by an ordinary one.  Cursor [i, j).  Result: the report of
     every call (flag, value, size_hint after the call, values handed out), the values destroyed in
     order, the final cursor.  [None]: a sink outside this fragment. *)
 Fixpoint sp_walk (xs : list N) (pat : list (bool * sink)) (i j : nat) : option (list N * list N * nat * nat) :=
@@ -187,7 +189,8 @@ Fixpoint sp_walk (xs : list N) (pat : list (bool * sink)) (i j : nat) : option (
   | (front, sk) :: rest =>
       if (i =? j)%nat then
         match sp_walk xs rest i j with
-        | Some (rets, ds, i', j') => Some (0 :: 0 :: N.of_nat (j - i) :: rets, ds, i', j')
+        | Some (rets, ds, i', j') =>
+            Some (match sk with KSkip => rets | _ => 0 :: 0 :: N.of_nat (j - i) :: rets end, ds, i', j')
         | None => None
         end
       else
@@ -195,9 +198,9 @@ Fixpoint sp_walk (xs : list N) (pat : list (bool * sink)) (i j : nat) : option (
         let i1 := if front then S i else i in
         let j1 := if front then j else (j - 1)%nat in
         let t := nth idx xs 0 in
-        match (match sk with KDrop => Some [] | KDown => Some [t] | _ => None end), sp_walk xs rest i1 j1 with
+        match (match sk with KDrop | KSkip => Some [] | KDown => Some [t] | _ => None end), sp_walk xs rest i1 j1 with
         | Some out, Some (rets, ds, i', j') =>
-            Some (1 :: t :: N.of_nat (j1 - i1) :: out ++ rets, t :: ds, i', j')
+            Some (match sk with KSkip => rets | _ => 1 :: t :: N.of_nat (j1 - i1) :: out ++ rets end, t :: ds, i', j')
         | _, _ => None
         end
   end.
